@@ -16,6 +16,21 @@ PAT_NOTE = ("Trusted: Lean kernel + standard axioms; the pattern model (lean/Iso
             "unmodelled in the evidence; floats are exact rationals in the model (dyadic inputs or tolerance 1e-9 in the comparison).")
 
 CHECKS = {
+    "C11": dict(
+        text="Each stochastic class is modelled over a recorded DRAW TAPE (random() / _randbelow(n) results of the pattern's own "
+             "generator; uniform / randrange / choice / shuffle rebuilt from CPython's algorithms). Theorems for EVERY tape of valid "
+             "draws: noise within [min, max], a finite length yields exactly that many values, brownian step and clamp, walk moves "
+             "between min and max positions, choices in the support, samples without replacement, shuffles are permutations, skips "
+             "only produce rests, Markov chains take only learned transitions, coin/flip-flop in {0,1}, weighted choice = the "
+             "interval [c_(i-1), c_i) of the normalised cumulative weights (frequency proportional to weight, without probability "
+             "theory), outputs are a function of arguments and tape (same seed / reseed / reset reproducible).",
+        design="DESIGN.md §3 C11, notes/NOTES-chance.md",
+        note=PAT_NOTE + " Isolation from other patterns and from the global generator is structural in a pure model: it is decided by the "
+             "interleaving oracle on the real objects (draws from other patterns, random.random(), random.seed() between steps, "
+             "random.getstate() untouched). The Mersenne Twister and CPython's random algorithms are modelled from their source, "
+             "validated by the recorded tapes, not verified. Frequencies (chi-square) are supporting evidence only. PRandomExponential "
+             "(irrational) has no range theorem.",
+        technique="Lean 4 theorems quantified over all draw tapes + recorded-tape differential correspondence + isolation / reproducibility oracles"),
     "C03": dict(
         text="Theorems for ALL event dictionaries and default assignments: resolve (= Event.__init__, step by step) equals the "
              "declarative spec incl. which error is raised; unknown key / note+degree / untyped rejected and nothing is played; type "
